@@ -80,7 +80,7 @@ impl Property for C15 {
     }
     fn exhaustive_subspaces(&self, _tier: Tier) -> Vec<String> {
         vec![
-            "every position of a single offending character in valid strings of every length <=min(capacity+1,140) characters, per type and radix, for 3 offending characters (ASCII, 2-byte, 4-byte)".into(),
+            "every position of a single offending character in valid strings of every length <=min(capacity+1,140) characters, per type and radix, for 5 offending characters (ASCII letter/digit, +, -, 2-byte, 4-byte)".into(),
             "all binary strings of length <=10 on all 19 types; all hex strings of length <=2".into(),
         ]
     }
@@ -98,7 +98,7 @@ impl Property for C15 {
                         return;
                     }
                     for pos in 0..n {
-                        for bad in ['g', '\u{661}', '\u{1f600}'] {
+                        for bad in ['g', '+', '-', '\u{661}', '\u{1f600}'] {
                             let mut c = valid.clone();
                             c[pos] = if !hex && bad == 'g' { '2' } else { bad };
                             if !f(C15Case::Parse { ty, s: c.into_iter().collect(), hex }) {
